@@ -304,7 +304,7 @@ func checkC01(c *Ctx) {
 			var at ssa.Instruction = op.Call
 			if op.Fn != rf {
 				for _, sp := range m.Spawns() {
-					if topFunc(sp.Fn) != rf {
+					if topFunc(sp.Fn) != rf && !containsFn(m.unitFns(rf), topFunc(sp.Fn)) {
 						continue
 					}
 					for _, t := range sp.Targets {
@@ -315,7 +315,7 @@ func checkC01(c *Ctx) {
 				}
 			}
 			claimOK := false
-			for _, l := range m.GuardsAt(at) {
+			for _, l := range m.unitGuards(rf, at) {
 				if !l.Truth || l.S.V == nil {
 					continue
 				}
@@ -346,19 +346,28 @@ func checkC01(c *Ctx) {
 			c.check(tokenOK, "R3", "token read in the same critical section", op.Call, "every load feeding payload.Token is under the election mutex in %s: %v", shortFn(section), tokenOK)
 			// stored back on success
 			stored := false
+			var seenOrigins []string
 			eachInstr(rf, func(in ssa.Instruction) {
 				if call, ok := in.(*ssa.Call); ok {
 					if fld, v, ok := m.atomicStore(call); ok && fld == m.Revision {
 						o := m.Origins(v)
+						seenOrigins = append(seenOrigins, o.String())
 						if o.all(func(k string) bool {
-							return strings.HasPrefix(k, "ownwrite:Update") || k == "const:zero" || k == "const:0"
-						}) {
+							return strings.HasPrefix(k, "ownwrite:Update") || k == "const:zero" || k == "const:0" || k == "const:nil"
+						}) && len(o) > 0 && func() bool {
+							for k := range o {
+								if strings.HasPrefix(k, "ownwrite:Update") {
+									return true
+								}
+							}
+							return false
+						}() {
 							stored = true
 						}
 					}
 				}
 			})
-			c.check(stored, "R3", "refresh stores the returned revision", op.Call, "a store of the Update's own result to the revision field exists in the loop: %v", stored)
+			c.check(stored, "R3", "refresh stores the returned revision", op.Call, "a store of the Update's own result to the revision field exists in the loop: %v (origins of the values stored to it there: %v)", stored, seenOrigins)
 		}
 	}
 	c.floor("R3", 6)
@@ -431,8 +440,24 @@ func checkC01(c *Ctx) {
 					// lock, in the stop unit, before the claim is cleared
 					loads := m.OriginLoads(a)
 					okTok = len(loads) > 0 && clear != nil
+					// the store that clears the claim, in the stop function or a function its
+					// critical section was split into
+					var clearStore ssa.Instruction
+					m.eachUnitInstr(stopFn, func(x ssa.Instruction) {
+						if val, isConst, ok := m.claimStore(x); ok && isConst && !val {
+							clearStore = x
+						}
+					})
 					for _, ld := range loads {
-						if !la.MustBefore(ld)[m.implMuW()] || ld.Parent() != stopFn || !dominatesInstr(ld, clear) {
+						inUnit := ld.Parent() == stopFn || containsFn(m.bodyFns(stopFn), ld.Parent())
+						before := false
+						if inUnit && ld.Parent() == stopFn && clear != nil && clear.Parent() == stopFn {
+							before = dominatesInstr(ld, clear)
+						}
+						if inUnit && !before && clearStore != nil {
+							before = m.dominatesLifted(stopFn, ld, clearStore)
+						}
+						if !la.MustBefore(ld)[m.implMuW()] || !inUnit || !before {
 							okTok = false
 						}
 					}
